@@ -149,6 +149,23 @@ def lazy_cases():
         (rows, (Fill(Iter('a')), Auto(Iter(T * 2)), list), ['aa', 'aa']),
         (rows, (Iter('a'), list), [1, 2]),
         (rows, Fill(Iter('a').all()), ['a', 'a']),
+    ] + first_default_cases()
+
+
+def first_default_cases():
+    """the default of First / Iter().first() is an argument position like every other default: containers are rebuilt, T leaves
+    and Spec / Val objects replaced by their values"""
+    from glom import T, Fill, Iter, Spec, Val
+    from glom.streaming import First
+    falsy = [0, 0.0, '']
+    return [
+        (falsy, First(default=[T, 'x', len]), [[0, 0.0, ''], 'x', len]),
+        (falsy, First(default=(T[0], {'k': T[2]})), (0, {'k': ''})),
+        (falsy, First(default={'n': Spec(len), 'v': Val('lit')}), {'n': 3, 'v': 'lit'}),
+        (falsy, Iter().first(default=[Val('lit'), 'x']), ['lit', 'x']),
+        (falsy, Fill(First(default=[T[0], 'x'])), [0, 'x']),
+        (falsy, First(default=[]), []),
+        ([0, 5, 7], First(default=[T]), 5),
     ]
 
 
